@@ -565,11 +565,18 @@ impl Range {
     }
 
     fn from_min_max(min: f64, max: f64) -> Result<Self> {
-        let range = max - min;
-        if range < 0.0 {
+        // Limits that are not finite numbers or in the wrong order cannot be used
+        if !min.is_finite() || !max.is_finite() || min > max {
             Error::invalid(format!("Found invalid range: min={min}, max={max}"))?;
         }
-        let inv_range = 1.0 / range;
+        // The range is calculated with halved limits to avoid an overflow for very big ranges.
+        // An empty range (min=max) has an inverse of zero, which normalizes all values to zero.
+        let half_range = max * 0.5 - min * 0.5;
+        let inv_range = if half_range > 0.0 {
+            1.0 / half_range
+        } else {
+            0.0
+        };
         Ok(Self {
             min,
             max,
@@ -671,8 +678,8 @@ impl Range {
     #[inline]
     fn normalize(&self, value: f64) -> f32 {
         let clamped = value.clamp(self.min, self.max);
-        let normalized = (clamped - self.min) * self.inv_range;
-        normalized as f32
+        let normalized = (clamped * 0.5 - self.min * 0.5) * self.inv_range;
+        normalized.clamp(0.0, 1.0) as f32
     }
 }
 
